@@ -10,6 +10,8 @@ import Mathlib.Algebra.Order.Field.Rat
 import Mathlib.Data.List.Perm.Basic
 import Mathlib.Data.Rat.Floor
 import Mathlib.Data.List.Induction
+import Mathlib.Data.Nat.Sqrt
+import Mathlib.Data.Rat.Lemmas
 
 namespace Coba.C11
 
@@ -1977,5 +1979,220 @@ theorem defaults_match_source' :
     [Coba.Generated.C11.ctorImpute] = envImputeFilters ⟨none, none, none⟩ ∧
     Coba.Generated.C11.envImpute = envImputeFilters ⟨none, none, none⟩ := by
   refine ⟨by decide +kernel, by decide +kernel, by decide, by decide⟩
+
+/-! ## phase 4 (continued) -/
+
+/-! ### phase 4 (continued): which columns get scaled / imputed -/
+
+/-- parameters exist exactly when none of the three exception conditions holds -/
+theorem fit_isSome_iff' (sd : List Rat → Rat) (cfg : Cfg) (w : List Val) :
+    (fit sd cfg w).isSome = true ↔ ¬ TypeErrCond cfg w ∧ ¬ ValueErrCond cfg w ∧ ¬ StatErrCond cfg w := by
+  have ht := fitE_typeError' sd cfg w
+  have hv := fitE_valueError' sd cfg w
+  have hs := fitE_statisticsError' sd cfg w
+  have hi := fitE_no_indexError' sd cfg w
+  rw [fit_eq_fitE']
+  unfold TypeErrCond ValueErrCond StatErrCond
+  rw [← ht, ← hv, ← hs]
+  cases h : fitE sd cfg w with
+  | ok p => simp
+  | error e => cases e <;> simp_all
+
+theorem denseRow_decision (sd : List Rat → Rat) (cfg : Cfg) (first : List Val) (win : List (List Val)) (row : List Val) :
+    denseRow sd cfg first win row = row.mapIdx (fun k v => applyOpt (denseDecision sd cfg first win k) v) := rfl
+
+theorem sparseRow_decision (sd : List Rat → Rat) (cfg : Cfg) (first : SCtx) (win : List SCtx) (c : SCtx) :
+    sparseRow sd cfg first win c = c.map (fun kv => (kv.1, applyOpt (sparseDecision sd cfg first win kv.1) kv.2)) := rfl
+
+theorem potDense_iff (first : List Val) (k : Nat) : potDense first k = true ↔ ∃ v, first[k]? = some v ∧ v.isStr = false := by
+  unfold potDense
+  cases h : first[k]? with
+  | none => simp
+  | some v => cases v <;> simp [Val.numOrNil, Val.isStr]
+
+theorem potSparse_iff (first : SCtx) (k : String) : potSparse first k = true ↔ ∀ v, first.lookup k = some v → v.isStr = false := by
+  unfold potSparse
+  cases h : first.lookup k with
+  | none => simp
+  | some v => cases v <;> simp [Val.isStr]
+
+theorem denseDecision_isSome_iff' (sd : List Rat → Rat) (cfg : Cfg) (first : List Val) (win : List (List Val)) (k : Nat) :
+    (denseDecision sd cfg first win k).isSome = true ↔
+      (∃ v, first[k]? = some v ∧ v.isStr = false) ∧
+        ¬ TypeErrCond cfg (col k win) ∧ ¬ ValueErrCond cfg (col k win) ∧ ¬ StatErrCond cfg (col k win) := by
+  unfold denseDecision
+  rw [← potDense_iff, ← fit_isSome_iff' sd]
+  cases potDense first k <;> simp
+
+theorem sparseDecision_isSome_iff' (sd : List Rat → Rat) (cfg : Cfg) (first : SCtx) (win : List SCtx) (k : String) :
+    (sparseDecision sd cfg first win k).isSome = true ↔
+      (∀ v, first.lookup k = some v → v.isStr = false) ∧
+        ¬ TypeErrCond cfg (win.map (getD0 k)) ∧ ¬ ValueErrCond cfg (win.map (getD0 k)) ∧ ¬ StatErrCond cfg (win.map (getD0 k)) := by
+  unfold sparseDecision
+  rw [← potSparse_iff, ← fit_isSome_iff' sd]
+  cases potSparse first k <;> simp
+
+/-- what a decision means for the cells of the column -/
+theorem applyOpt_decision (p : Option (Rat × Rat)) (v : Val) :
+    (p = none → applyOpt p v = v) ∧
+    (∀ s f, p = some (s, f) → (∀ x, v = .num x → applyOpt p v = .num ((x + s) * f)) ∧ (v.isNum = false → applyOpt p v = v)) := by
+  refine ⟨fun h => by rw [h]; rfl, fun s f h => ⟨fun x hx => by rw [h, hx]; rfl, fun hv => by rw [h]; exact applyOpt_nonnum _ _ hv⟩⟩
+
+/-! #### Impute -/
+
+theorem getImp_imputable {st : Stat} {w : List Val} {m : Val} (h : getImp st w = some m) : Imputable st w := by
+  unfold getImp at h
+  unfold Imputable
+  cases st with
+  | mode =>
+    simp only at h
+    refine ⟨?_, trivial⟩
+    intro he
+    rw [he] at h
+    simp [mode, modeAux] at h
+  | mean =>
+    simp only at h
+    split at h
+    · rename_i hall
+      refine ⟨?_, hall⟩
+      intro he
+      rw [he] at h
+      simp [nums, mean] at h
+    · cases h
+  | median =>
+    simp only at h
+    split at h
+    · rename_i hall
+      refine ⟨?_, hall⟩
+      intro he
+      rw [he] at h
+      simp [nums, median_nil] at h
+    · cases h
+
+theorem getImp_isSome_iff' (st : Stat) (w : List Val) : (getImp st w).isSome = true ↔ Imputable st w := by
+  constructor
+  · intro h
+    obtain ⟨m, hm⟩ := Option.isSome_iff_exists.1 h
+    exact getImp_imputable hm
+  · intro h
+    obtain ⟨m, hm⟩ := getImp_isSome h
+    rw [hm]; rfl
+
+theorem denseImp_isSome_iff' (st : Stat) (first : List Val) (win : List (List Val)) (k : Nat) :
+    (denseImp st first win k).isSome = true ↔
+      (match st with | .mode => k < first.length | _ => ∃ v, first[k]? = some v ∧ v.isStr = false) ∧
+        Imputable st (col k win) := by
+  unfold denseImp
+  rw [← getImp_isSome_iff']
+  cases st <;> simp only [impDense, ← potDense_iff]
+  · by_cases hp : potDense first k = true <;> simp [hp]
+  · by_cases hp : potDense first k = true <;> simp [hp]
+  · by_cases hk : k < first.length <;> simp [hk]
+
+theorem ite_isSome {α : Type} (b : Bool) (o : Option α) :
+    (if b = true then o else none).isSome = true ↔ b = true ∧ o.isSome = true := by cases b <;> simp
+
+theorem sparseImp_isSome_iff' (st : Stat) (first : SCtx) (win : List SCtx) (k : String) :
+    (sparseImp st first win k).isSome = true ↔
+      (match st with | .mode => True | _ => ∀ v, first.lookup k = some v → v.isStr = false) ∧
+        Imputable st (sparseCol k win) := by
+  unfold sparseImp
+  rw [← getImp_isSome_iff']
+  cases st <;> simp only [impSparseKey]
+  · rw [← potSparse_iff]; unfold potSparse
+    exact ite_isSome _ _
+  · rw [← potSparse_iff]; unfold potSparse
+    exact ite_isSome _ _
+  · simp
+
+/-! #### scalar vs dense with one feature: exactly when they agree -/
+
+theorem scaleDense_string_first (sd : List Rat → Rat) (cfg : Cfg) (s : String) (rest : List Val) :
+    scaleDense sd cfg ((Val.str s :: rest).map (fun v => [v])) = (Val.str s :: rest).map (fun v => [v]) := by
+  have key : ∀ (v : Val) (win : List (List Val)), denseRow sd cfg [Val.str s] win [v] = [v] := by
+    intro v win
+    simp [denseRow, List.mapIdx_cons, List.mapIdx_nil, potDense, Val.numOrNil, applyOpt]
+  simp only [List.map_cons, scaleDense]
+  rw [key]
+  congr 1
+  rw [List.map_map]
+  apply List.map_congr_left
+  intro v _
+  exact key v _
+
+theorem scale_scalar_dense_agree_iff' (sd : List Rat → Rat) (cfg : Cfg) (v0 : Val) (rest : List Val) :
+    scaleDense sd cfg ((v0 :: rest).map (fun v => [v])) = (scaleScalar sd cfg (v0 :: rest)).map (fun v => [v]) ↔
+      (v0.isStr = false ∨ ∀ v ∈ v0 :: rest, applyOpt (fit sd cfg (window cfg.usingN (v0 :: rest))) v = v) := by
+  by_cases h0 : v0.isStr = false
+  · simp only [h0, true_or, iff_true]
+    exact scale_scalar_dense_agree' sd cfg (v0 :: rest) (by intro v hv; simp at hv; rw [← hv]; exact h0)
+  · obtain ⟨s, rfl⟩ : ∃ s, v0 = .str s := by cases v0 <;> simp_all [Val.isStr]
+    rw [scaleDense_string_first]
+    simp only [Val.isStr, false_or, scaleScalar, List.map_map]
+    constructor
+    · intro h
+      right
+      intro v hv
+      have := (List.map_inj_left.1 h) v hv
+      simpa using this.symm
+    · intro h
+      rcases h with h | h
+      · cases h
+      · apply List.map_congr_left
+        intro v hv
+        simp [h v hv]
+
+theorem isqrtRto_exact' (a m : Nat) (hm : 0 < m) : isqrtRto (a * a * m) m = a := by
+  unfold isqrtRto
+  rw [Nat.mul_div_cancel _ hm, Nat.sqrt_eq]
+  simp
+
+theorem pySqrtFrac_exact' (a b : Nat) (hb : 0 < b) (hq : pySqrtShift (a * a) (b * b) < 0)
+    (hd : b ∣ a * 2 ^ (-(pySqrtShift (a * a) (b * b))).toNat) :
+    pySqrtFrac (a * a) (b * b) =
+      (a * 2 ^ (-(pySqrtShift (a * a) (b * b))).toNat / b, 2 ^ (-(pySqrtShift (a * a) (b * b))).toNat) := by
+  unfold pySqrtFrac
+  rw [if_neg (by omega)]
+  generalize (-(pySqrtShift (a * a) (b * b))).toNat = s at hd ⊢
+  obtain ⟨c, hc⟩ := hd
+  have hcb : a * 2 ^ s / b = c := by rw [hc]; exact Nat.mul_div_cancel_left c hb
+  rw [hcb, Nat.shiftLeft_eq, Nat.one_shiftLeft]
+  have : a * a * 2 ^ (2 * s) = c * c * (b * b) := by
+    have : a * a * 2 ^ (2 * s) = (a * 2 ^ s) * (a * 2 ^ s) := by rw [Nat.mul_comm 2 s, pow_mul]; ring
+    rw [this, hc]; ring
+  rw [this, isqrtRto_exact' c (b * b) (Nat.mul_pos hb hb)]
+
+/-- the square root CPython's `statistics.stdev` computes is exact on data whose sample variance is the square of a
+rational `r ≥ 0` whose denominator divides `r.num · 2^s` (`s` = the routine's scaling shift; every dyadic `r` of modest size) -/
+theorem sqrt_exact_perfect_square' (xs : List Rat) (r : Rat) (hr : 0 ≤ r) (hv : variance xs = r * r)
+    (hq : pySqrtShift (r.num.toNat * r.num.toNat) (r.den * r.den) < 0)
+    (hd : r.den ∣ r.num.toNat * 2 ^ (-(pySqrtShift (r.num.toNat * r.num.toNat) (r.den * r.den))).toNat) :
+    SqrtExact pySd xs := by
+  have hn : 0 ≤ r.num := Rat.num_nonneg.2 hr
+  have h1 : (variance xs).num.toNat = r.num.toNat * r.num.toNat := by
+    rw [hv, Rat.mul_self_num]
+    exact Int.toNat_mul hn hn
+  have h2 : (variance xs).den = r.den * r.den := by rw [hv, Rat.mul_self_den]
+  have hsd : pySd xs = r := by
+    unfold pySd
+    rw [h1, h2, pySqrtFrac_exact' _ _ r.den_pos hq hd]
+    simp only
+    generalize (-(pySqrtShift (r.num.toNat * r.num.toNat) (r.den * r.den))).toNat = s at hd ⊢
+    obtain ⟨c, hc⟩ := hd
+    rw [hc, Nat.mul_div_cancel_left c r.den_pos]
+    have hden : (r.den : Rat) ≠ 0 := by exact_mod_cast r.den_pos.ne'
+    have h2s : ((2 ^ s : Nat) : Rat) ≠ 0 := by positivity
+    have hcq : (r.num.toNat : Rat) * ((2 ^ s : Nat) : Rat) = (r.den : Rat) * (c : Rat) := by exact_mod_cast hc
+    have hnum : (r.num.toNat : Rat) = r * r.den := by
+      have : ((r.num.toNat : Int) : Rat) = (r.num : Rat) := by rw [Int.toNat_of_nonneg hn]
+      rw [Rat.mul_den_eq_num]; exact_mod_cast this
+    rw [div_eq_iff h2s]
+    have : (r.den : Rat) * (c : Rat) = (r.den : Rat) * (r * ((2 ^ s : Nat) : Rat)) := by rw [← hcq, hnum]; ring
+    exact mul_left_cancel₀ hden this
+  unfold SqrtExact
+  rw [hsd]
+  exact ⟨hr, hv.symm⟩
+
+example : pySqrtFrac 4 1 = (2 * 2 ^ 54, 2 ^ 54) := by decide +kernel
 
 end Coba.C11
